@@ -655,3 +655,96 @@ func rulePostfixSentinel(c *Ctx, r *Report) {
 	}
 	r.analysed(rule, fmt.Sprintf("%s, %d classification tests", fname(bp), n))
 }
+
+// ---------------------------------------------------------------------------
+// R-OPERAND-KEEPS-RIGHT (C06; added after seed C06i): what decides whether a blank or a bracket is needed after a
+// term is the operator that FOLLOWS it (WriteOptions.right). The rightmost operand of an operator term that is
+// written without brackets ends where the whole term ends: it must be told what follows the whole term. In the
+// prefix and infix operator writers the options given to the rightmost operand descend from the function's own
+// options along at least one path that does not pass through withRight - the path taken when no brackets are
+// written. With the right context cleared on every path, mod(-(a), b) is written -amod b.
+func ruleOperandKeepsRight(c *Ctx, r *Report) {
+	const rule = "R-OPERAND-KEEPS-RIGHT"
+	desc := "the rightmost operand of an unbracketed operator term is told which operator follows"
+	n := 0
+	for _, w := range []struct {
+		fn  string
+		arg int64
+	}{{"writeCompoundOpPrefix", 0}, {"writeCompoundOpInfix", 1}} {
+		fn := c.fn(w.fn)
+		if fn == nil {
+			r.undecided(rule, "anchor:"+w.fn, "-", desc, "not found")
+			continue
+		}
+		var optsParam *ssa.Parameter
+		for _, p := range fn.Params {
+			if isEngNamed(p.Type(), "WriteOptions") {
+				optsParam = p
+			}
+		}
+		eachInstr(fn, func(in ssa.Instruction) {
+			call, ok := in.(*ssa.Call)
+			if !ok || !call.Call.IsInvoke() || call.Call.Method.Name() != "WriteTerm" || len(call.Call.Args) < 2 {
+				return
+			}
+			// the receiver is Arg(<rightmost>) of the compound
+			recv, ok := call.Call.Value.(*ssa.Call)
+			if !ok || !recv.Call.IsInvoke() || recv.Call.Method.Name() != "Arg" || len(recv.Call.Args) != 1 {
+				return
+			}
+			if k, ok := constInt(recv.Call.Args[0]); !ok || k != w.arg {
+				return
+			}
+			n++
+			key := fmt.Sprintf("%s/Arg(%d).WriteTerm", fname(fn), w.arg)
+			seen := map[ssa.Value]bool{}
+			var reach func(v ssa.Value) bool
+			reach = func(v ssa.Value) bool {
+				if v == nil || seen[v] {
+					return false
+				}
+				seen[v] = true
+				switch x := v.(type) {
+				case *ssa.Parameter:
+					return x == optsParam
+				case *ssa.Phi:
+					for _, e := range x.Edges {
+						if reach(e) {
+							return true
+						}
+					}
+				case *ssa.UnOp:
+					if x.Op == token.MUL {
+						if cell := c.varCell(x.X); cell != nil {
+							for _, st := range c.storesTo(cell) {
+								if reach(st.Val) {
+									return true
+								}
+							}
+							return false
+						}
+						return reach(x.X)
+					}
+				case *ssa.Call:
+					callee := x.Call.StaticCallee()
+					if callee == nil || recvNamed(callee) != "WriteOptions" || len(x.Call.Args) == 0 {
+						return false
+					}
+					if c.stableFuncName(callee) == "withRight" {
+						return false
+					}
+					return reach(x.Call.Args[0])
+				}
+				return false
+			}
+			if reach(call.Call.Args[1]) {
+				r.ok(rule, key, c.at(in), desc, "a path from the function's options to the operand's options passes no withRight", true)
+			} else {
+				r.bad(rule, key, c.at(in), desc, "every path from the function's options to the operand's options passes through withRight: the operand is never told which operator follows the term, and the blank (or bracket) that separates them is not written")
+			}
+		})
+	}
+	if n == 0 {
+		r.undecided(rule, "scan/rightmost-operand", "-", desc, "no WriteTerm call on the rightmost operand found in the operator writers")
+	}
+}
